@@ -504,9 +504,11 @@ package chain
 //@   assigns nothing
 //@ func (*DBStore).Flush props C03
 //@   nopanic
+//@   assigns heap:DBStore
 //@   requires db != nil && db.db != nil
 //@   ensures [noop] old(db.unflushed) == 0 ==> !mayHaveCalled("DB.Flush") && result == nil
 //@   ensures [reset] old(db.unflushed) != 0 ==> called("DB.Flush") && db.unflushed == 0
+//@   ensures [fields] db.n == old(db.n) && db.db == old(db.db)
 //@ func (*DBStore).ApplyBlock props C03
 //@   requires db != nil && db.db != nil && db.n != nil
 //@   ensures [writes-before-commit] !mayHaveCalled("Flush") || (calledBefore("applyState", "Flush") && (s.Index.Height > db.n.HardforkV2.RequireHeight || calledBefore("applyElements", "Flush")))
